@@ -1220,8 +1220,10 @@ emittype(struct type *t)
 			;
 		emitclass(qbetype(sub).data, sub->value);
 		/* a flexible array member has zero elements, but still contributes its alignment */
-		if (m->type->size > sub->size || m->type->kind == TYPEARRAY && m->type->incomplete)
+		if (m->type->size > sub->size)
 			printf(" %llu", m->type->size / sub->size);
+		else if (m->type->kind == TYPEARRAY && m->type->incomplete)
+			fputs(" 0", stdout);
 		if (t->kind == TYPESTRUCT) {
 			fputs(", ", stdout);
 			/* skip subsequent members contained within the same storage unit */
